@@ -33,7 +33,7 @@ for d in sorted(glob.glob("/verif/seeded/*/") + glob.glob("/verif/mutants/*/")):
         subprocess.check_call(["git", "-C", "/repo", "worktree", "add", "--detach", tmp + "/r", "HEAD"], stdout=subprocess.DEVNULL, stderr=subprocess.DEVNULL)
         subprocess.check_call(["git", "-C", tmp + "/r", "apply", patch])
         for p in props:
-            env = dict(os.environ, VERIF_REPO=tmp + "/r", GOFLAGS="-mod=mod", GOPROXY="off", GOSUMDB="off", GOTOOLCHAIN="local", VERIF_DIR="/verif", VERIF_NOEVIDENCE="1")
+            env = dict(os.environ, VERIF_REPO=tmp + "/r", GOFLAGS="-mod=mod", GOPROXY="off", GOSUMDB="off", GOTOOLCHAIN="local", VERIF_DIR="/verif", VERIF_NOEVIDENCE="1", VERIF_NOSHRINK=os.environ.get("SENS_SHRINK", "") == "" and "1" or "")
             cmd = ["/verif/bin/verif", "check", p, "--tier", tier]
             if runs: cmd += ["--runs", runs]
             t0 = time.time()
